@@ -22,6 +22,14 @@
 //! which fails the Coq check (fail closed).  Shapes that cannot be represented at all (an anchored
 //! file missing, a macro_rules body calling a propagating method) make this program exit non-zero.
 //!
+//! Items are dropped as test-only only when their `#[cfg(..)]` predicate evaluates to false with `test` off
+//! (`cfg(test)`, `cfg(all(test, ..))`); `cfg(not(test))`, features etc. are kept.  A propagating NAME that occurs
+//! outside call position (path / method reference / field / any token inside a macro invocation) is `Other`; so is
+//! `call?` inside a function that does not itself return Result<_, X::Error>.  Besides the skeletons the output
+//! contains `site_census` (per file: `name(` tokens in all non-test code) and `target_error_types` (the
+//! `type Error` of every `impl DrawTarget`), both checked against the table in Properties/C04.v.
+//! `--sites <tsv>` lists the source span of every call site (used by mutation_tests.py --per-site).
+//!
 //! Completeness self-check (independent of the AST walk): per function the number of `name(` tokens with a
 //! propagating name must equal the number of translated call sites, otherwise an `Other` is appended.
 //! Known limit (documented in props/C04.py): calls are recognised by NAME.  A callee that is not defined in the
@@ -138,18 +146,73 @@ struct FnInfo {
 
 struct Ctx<'a> {
     prop: &'a BTreeSet<String>,
+    /// the function being translated returns Result<_, X::Error>
+    errflow: bool,
+    /// file of the function being translated
+    file: String,
+    /// every translated call site: file, callee, use, start line, start column, end line, end column of the call
+    /// expression (without the `?`); columns count characters from 0 (only for `--sites`, the per-site sweep test)
+    sites: std::cell::RefCell<Vec<(String, String, String, usize, usize, usize, usize)>>,
 }
 
 fn line_of<T: Spanned>(t: &T) -> usize {
     t.span().start().line
 }
 
+/// three-valued evaluation of a cfg predicate under `test = false`; everything else (features, targets) is unknown
+fn cfg_eval(m: &Meta) -> Option<bool> {
+    match m {
+        Meta::Path(p) => {
+            if p.is_ident("test") {
+                Some(false)
+            } else {
+                None
+            }
+        }
+        Meta::NameValue(_) => None,
+        Meta::List(l) => {
+            let args: Vec<Meta> = match l.parse_args_with(syn::punctuated::Punctuated::<Meta, Token![,]>::parse_terminated) {
+                Ok(a) => a.into_iter().collect(),
+                Err(_) => return None,
+            };
+            let vals: Vec<Option<bool>> = args.iter().map(cfg_eval).collect();
+            if l.path.is_ident("not") {
+                vals.first().copied().flatten().map(|b| !b)
+            } else if l.path.is_ident("all") {
+                if vals.iter().any(|v| *v == Some(false)) {
+                    Some(false)
+                } else if vals.iter().all(|v| *v == Some(true)) {
+                    Some(true)
+                } else {
+                    None
+                }
+            } else if l.path.is_ident("any") {
+                if vals.iter().any(|v| *v == Some(true)) {
+                    Some(true)
+                } else if vals.iter().all(|v| *v == Some(false)) {
+                    Some(false)
+                } else {
+                    None
+                }
+            } else {
+                None
+            }
+        }
+    }
+}
+
+/// an item is dropped only if one of its `#[cfg(..)]` predicates is definitely false when `test` is off
+/// (`cfg(test)`, `cfg(all(test, ..))`); `cfg(not(test))`, `cfg(any(test, feature = ..))`, features ... are kept
 fn is_cfg_test(attrs: &[Attribute]) -> bool {
     attrs.iter().any(|a| {
-        a.path().is_ident("cfg") && {
-            let s = a.meta.to_token_stream_string();
-            s.contains("test")
-        }
+        a.path().is_ident("cfg")
+            && match &a.meta {
+                Meta::List(l) => match l.parse_args::<Meta>() {
+                    Ok(pred) => cfg_eval(&pred) == Some(false),
+                    Err(_) => false,
+                },
+                _ => false,
+            }
     })
 }
 
@@ -231,6 +294,28 @@ fn tokens_call_prop(ts: TokenStream, prop: &BTreeSet<String>) -> Option<String> 
             }
             TokenTree::Group(g) => {
                 if let Some(n) = tokens_call_prop(g.stream(), prop) {
+                    return Some(n);
+                }
+            }
+            _ => {}
+        }
+    }
+    None
+}
+
+/// does a token stream mention a propagating name at all (call, path, method reference)?  `fn name` excluded
+fn tokens_mention_prop(ts: TokenStream, prop: &BTreeSet<String>) -> Option<String> {
+    let v: Vec<TokenTree> = ts.into_iter().collect();
+    for i in 0..v.len() {
+        match &v[i] {
+            TokenTree::Ident(id) if prop.contains(&id.to_string()) => {
+                let is_def = i > 0 && matches!(&v[i - 1], TokenTree::Ident(f) if f == "fn");
+                if !is_def {
+                    return Some(id.to_string());
+                }
+            }
+            TokenTree::Group(g) => {
+                if let Some(n) = tokens_mention_prop(g.stream(), prop) {
                     return Some(n);
                 }
             }
@@ -384,7 +469,23 @@ impl<'a> Ctx<'a> {
             Expr::MethodCall(m) => line_of(&m.method),
             other => line_of(other),
         };
+        {
+            let sp = strip(e).span();
+            self.sites.borrow_mut().push((
+                self.file.clone(),
+                name.clone(),
+                format!("{:?}", u),
+                sp.start().line,
+                sp.start().column,
+                sp.end().line,
+                sp.end().column,
+            ));
+        }
         let this = match u {
+            Use::Try if !self.errflow => seq(
+                Sk::Call(name.clone(), line, Disp::Discarded),
+                self.other(e, &format!("`{}(..)?` in a function that does not return Result<_, X::Error>: the error is converted or dropped", name)),
+            ),
             Use::Try => Sk::Call(name, line, Disp::Propagated),
             Use::Result => seq(Sk::Call(name, line, Disp::Propagated), Sk::Ret),
             Use::Discard => Sk::Call(name, line, Disp::Discarded),
@@ -434,8 +535,8 @@ impl<'a> Ctx<'a> {
     }
 
     fn mac(&self, m: &Macro) -> Sk {
-        match tokens_call_prop(m.tokens.clone(), self.prop) {
-            Some(n) => self.other(m, &format!("propagating call `{}` inside a macro invocation", n)),
+        match tokens_mention_prop(m.tokens.clone(), self.prop) {
+            Some(n) => self.other(m, &format!("propagating name `{}` inside a macro invocation", n)),
             None => Sk::Skip,
         }
     }
@@ -448,7 +549,7 @@ impl<'a> Ctx<'a> {
                 Some(if u == Use::Result { seq(pre, Sk::Ret) } else { pre })
             }
             // a variable: whatever was bound to it has been classified where it was bound
-            Expr::Path(_) => Some(if u == Use::Result { Sk::Ret } else { Sk::Skip }),
+            Expr::Path(_) => Some(self.expr(strip(e), u)),
             // diverging macros (unreachable!, panic!, todo!, unimplemented!): panics are outside C04
             Expr::Macro(m) => {
                 let n = m.mac.path.segments.last().map(|s| s.ident.to_string()).unwrap_or_default();
@@ -581,7 +682,8 @@ impl<'a> Ctx<'a> {
                 self.finish_unknown(e, s, u)
             }
             Expr::Path(p) => {
-                if p.path.segments.len() >= 2 && self.prop.contains(&p.path.segments.last().unwrap().ident.to_string()) {
+                // outside call position (prop_call above handles `name(..)`): a function pointer / method reference
+                if self.prop.contains(&p.path.segments.last().unwrap().ident.to_string()) {
                     return self.other(e, "propagating function used as a value (function pointer)");
                 }
                 if u == Use::Result {
@@ -599,7 +701,14 @@ impl<'a> Ctx<'a> {
             Expr::Unary(x) => self.expr(&x.expr, Use::Value),
             Expr::Reference(x) => self.expr(&x.expr, Use::Value),
             Expr::Cast(x) => self.expr(&x.expr, Use::Value),
-            Expr::Field(x) => self.expr(&x.base, Use::Value),
+            Expr::Field(x) => {
+                if let Member::Named(id) = &x.member {
+                    if self.prop.contains(&id.to_string()) {
+                        return seq(self.expr(&x.base, Use::Value), self.other(e, "field with a propagating name used as a value"));
+                    }
+                }
+                self.expr(&x.base, Use::Value)
+            }
             Expr::Index(x) => seq(self.expr(&x.expr, Use::Value), self.expr(&x.index, Use::Value)),
             Expr::Tuple(t) => seqs(t.elems.iter().map(|a| self.expr(a, Use::Value))),
             Expr::Array(t) => seqs(t.elems.iter().map(|a| self.expr(a, Use::Value))),
@@ -639,6 +748,11 @@ struct Collected {
     fns: Vec<(String, String, Signature, Option<Block>)>,
     /// item-level macros: (file, line, tokens)
     macros: Vec<(String, usize, TokenStream)>,
+    /// `impl DrawTarget for X`: (place, `type Error` as written, the type named before `::Error` is a type
+    /// parameter of the impl bounded by DrawTarget)
+    error_types: Vec<(String, String, bool)>,
+    /// token streams of all non-test items per file, for the whole-tree census
+    item_tokens: Vec<(String, TokenStream)>,
 }
 
 fn type_str(t: &Type) -> String {
@@ -673,6 +787,7 @@ fn collect_items(file: &str, items: &[Item], out: &mut Collected) {
                 if is_cfg_test(&f.attrs) {
                     continue;
                 }
+                out.item_tokens.push((file.to_string(), quote::ToTokens::to_token_stream(&f.block)));
                 out.fns.push((file.to_string(), format!("{}:{} fn", file, line_of(&f.sig.ident)), f.sig.clone(), Some((*f.block).clone())));
                 collect_nested(file, &f.block, out);
             }
@@ -690,16 +805,57 @@ fn collect_items(file: &str, items: &[Item], out: &mut Collected) {
                     Some(t) => format!("impl {} for {}", t.replace(' ', ""), type_str(&im.self_ty)),
                     None => format!("impl {}", type_str(&im.self_ty)),
                 };
+                if tr.as_deref().map(|t| t.replace(' ', "")).map(|t| t == "DrawTarget" || t.ends_with("::DrawTarget")).unwrap_or(false) {
+                    let mut found = false;
+                    for ii in &im.items {
+                        if let ImplItem::Type(t) = ii {
+                            if t.ident == "Error" {
+                                found = true;
+                                let ty = type_str(&t.ty).replace(' ', "");
+                                // `P::Error` with P a type parameter of this impl that is bounded by DrawTarget
+                                let par = ty.strip_suffix("::Error").map(|p| p.to_string());
+                                let bounded = match &par {
+                                    Some(pn) => {
+                                        let in_params = im.generics.type_params().any(|tp| {
+                                            tp.ident == pn.as_str() && tp.bounds.iter().any(|b| b.to_token_stream_string().contains("DrawTarget"))
+                                        });
+                                        let in_where = im.generics.where_clause.as_ref().map(|w| {
+                                            w.predicates.iter().any(|pr| match pr {
+                                                WherePredicate::Type(pt) => {
+                                                    type_str(&pt.bounded_ty).replace(' ', "") == *pn
+                                                        && pt.bounds.iter().any(|b| b.to_token_stream_string().contains("DrawTarget"))
+                                                }
+                                                _ => false,
+                                            })
+                                        }).unwrap_or(false);
+                                        let is_param = im.generics.type_params().any(|tp| tp.ident == pn.as_str());
+                                        is_param && (in_params || in_where)
+                                    }
+                                    None => false,
+                                };
+                                out.error_types.push((format!("{}:{} {}", file, line_of(&t.ident), head), ty, bounded));
+                            }
+                        }
+                    }
+                    if !found {
+                        out.error_types.push((format!("{}:{} {}", file, line_of(&im.self_ty), head), "<missing>".to_string(), false));
+                    }
+                }
                 for ii in &im.items {
                     match ii {
                         ImplItem::Fn(f) => {
                             if is_cfg_test(&f.attrs) {
                                 continue;
                             }
+                            out.item_tokens.push((file.to_string(), quote::ToTokens::to_token_stream(&f.block)));
                             out.fns.push((file.to_string(), format!("{}:{} {}", file, line_of(&f.sig.ident), head), f.sig.clone(), Some(f.block.clone())));
                             collect_nested(file, &f.block, out);
                         }
-                        ImplItem::Macro(m) => out.macros.push((file.to_string(), line_of(m), m.mac.tokens.clone())),
+                        ImplItem::Macro(m) => {
+                            out.item_tokens.push((file.to_string(), m.mac.tokens.clone()));
+                            out.macros.push((file.to_string(), line_of(m), m.mac.tokens.clone()))
+                        }
+                        ImplItem::Const(c) => out.item_tokens.push((file.to_string(), quote::ToTokens::to_token_stream(c))),
                         _ => {}
                     }
                 }
@@ -711,6 +867,9 @@ fn collect_items(file: &str, items: &[Item], out: &mut Collected) {
                 for ti in &t.items {
                     match ti {
                         TraitItem::Fn(f) => {
+                            if let Some(b) = &f.default {
+                                out.item_tokens.push((file.to_string(), quote::ToTokens::to_token_stream(b)));
+                            }
                             out.fns.push((
                                 file.to_string(),
                                 format!("{}:{} trait {} (provided method)", file, line_of(&f.sig.ident), t.ident),
@@ -721,7 +880,10 @@ fn collect_items(file: &str, items: &[Item], out: &mut Collected) {
                                 collect_nested(file, b, out);
                             }
                         }
-                        TraitItem::Macro(m) => out.macros.push((file.to_string(), line_of(m), m.mac.tokens.clone())),
+                        TraitItem::Macro(m) => {
+                            out.item_tokens.push((file.to_string(), m.mac.tokens.clone()));
+                            out.macros.push((file.to_string(), line_of(m), m.mac.tokens.clone()))
+                        }
                         _ => {}
                     }
                 }
@@ -734,7 +896,11 @@ fn collect_items(file: &str, items: &[Item], out: &mut Collected) {
                     collect_items(file, items, out);
                 }
             }
-            Item::Macro(m) => out.macros.push((file.to_string(), line_of(m), m.mac.tokens.clone())),
+            Item::Macro(m) => {
+                out.item_tokens.push((file.to_string(), m.mac.tokens.clone()));
+                out.macros.push((file.to_string(), line_of(m), m.mac.tokens.clone()))
+            }
+            Item::Const(_) | Item::Static(_) => out.item_tokens.push((file.to_string(), quote::ToTokens::to_token_stream(it))),
             _ => {}
         }
     }
@@ -819,14 +985,14 @@ fn count(s: &Sk, calls: &mut usize, bad: &mut Vec<String>, f: &FnInfo) {
 
 fn main() {
     let a: Vec<String> = std::env::args().collect();
-    if a.len() != 3 {
-        die("usage: errflow <repo root> <output .v>");
+    if a.len() != 3 && !(a.len() == 5 && a[3] == "--sites") {
+        die("usage: errflow <repo root> <output .v> [--sites <output .tsv>]");
     }
     let root = PathBuf::from(&a[1]);
     let mut files = Vec::new();
     walk(&root.join("src"), &mut files);
     walk(&root.join("core/src"), &mut files);
-    let mut col = Collected { fns: Vec::new(), macros: Vec::new() };
+    let mut col = Collected { fns: Vec::new(), macros: Vec::new(), error_types: Vec::new(), item_tokens: Vec::new() };
     for p in &files {
         let rel = p.strip_prefix(&root).unwrap().to_string_lossy().to_string();
         let src = std::fs::read_to_string(p).unwrap_or_else(|e| die(&format!("cannot read {}: {}", rel, e)));
@@ -849,7 +1015,7 @@ fn main() {
             die(&format!("{}:{}: macro body calls `{}(..)`; code inside item-level macros is not translated", file, line, n));
         }
     }
-    let ctx = Ctx { prop: &prop };
+    let mut ctx = Ctx { prop: &prop, errflow: true, file: String::new(), sites: std::cell::RefCell::new(Vec::new()) };
     let mut infos = Vec::new();
     for (file, place, sig, body) in &col.fns {
         // a function that is not itself an error-flow function must not make propagating calls that it
@@ -870,13 +1036,15 @@ fn main() {
                 sk
             }
         };
+        ctx.errflow = ef;
+        ctx.file = file.clone();
         if ef {
             let sk = checked(ctx.block(body, Use::Result));
             infos.push(FnInfo { name: sig.ident.to_string(), place: place.clone(), body: sk });
         } else {
             // non error-flow function: every propagating call in it necessarily loses the error
             let fake = Expr::Block(ExprBlock { attrs: vec![], label: None, block: body.clone() });
-            if ctx.contains_prop_call_no_try(&fake) || expect != 0 {
+            if ctx.contains_prop_call_no_try(&fake) || expect != 0 || tokens_mention_prop(quote::ToTokens::to_token_stream(body), &prop).is_some() {
                 let sk = checked(ctx.block(body, Use::Discard));
                 infos.push(FnInfo { name: sig.ident.to_string(), place: format!("{} (does not return a target error)", place), body: sk });
             }
@@ -906,13 +1074,35 @@ fn main() {
         emit(&f.body, 6, &mut o);
         write!(o, " |}}{}\n", if i + 1 == infos.len() { "" } else { ";" }).unwrap();
     }
-    o.push_str("].\n");
+    o.push_str("].\n\n");
+    // whole-tree census, independent of the per-function AST walk: `name(` tokens with a propagating name in every
+    // non-test fn body / const / item-level macro of a file (cfg(test) items and `fn name(` definitions excluded)
+    o.push_str("(* file, number of propagating call tokens in its non-test code *)\nDefinition site_census : list (string * nat) := [\n");
+    let mut per_file: std::collections::BTreeMap<String, usize> = std::collections::BTreeMap::new();
+    for (file, ts) in &col.item_tokens {
+        *per_file.entry(file.clone()).or_insert(0) += census(ts.clone(), &prop);
+    }
+    let rows: Vec<String> = per_file.iter().filter(|(_, n)| **n > 0).map(|(f, n)| format!("  ({}, {})", coq_str(f), n)).collect();
+    o.push_str(&rows.join(";\n"));
+    o.push_str("\n].\n\n");
+    o.push_str("(* every `impl DrawTarget for ..`: place, `type Error` as written, is it `P::Error` for a type parameter P: DrawTarget of the impl *)\n");
+    o.push_str("Definition target_error_types : list (string * string * bool) := [\n");
+    let rows: Vec<String> = col.error_types.iter().map(|(p, t, b)| format!("  ({}, {}, {})", coq_str(p), coq_str(t), b)).collect();
+    o.push_str(&rows.join(";\n"));
+    o.push_str("\n].\n");
     let old = std::fs::read_to_string(&a[2]).unwrap_or_default();
     if old != o {
         if let Some(d) = Path::new(&a[2]).parent() {
             std::fs::create_dir_all(d).ok();
         }
         std::fs::write(&a[2], &o).unwrap_or_else(|e| die(&format!("cannot write {}: {}", a[2], e)));
+    }
+    if a.len() == 5 {
+        let mut t = String::new();
+        for (f, n, u, l0, c0, l1, c1) in ctx.sites.borrow().iter() {
+            writeln!(t, "{}\t{}\t{}\t{}\t{}\t{}\t{}", f, n, u, l0, c0, l1, c1).unwrap();
+        }
+        std::fs::write(&a[4], t).unwrap_or_else(|e| die(&format!("cannot write {}: {}", a[4], e)));
     }
     eprintln!("errflow: {} files, {} functions, {} call sites, {} names, {} not propagated / not understood", files.len(), infos.len(), calls, prop.len(), bad.len());
     for b in &bad {
